@@ -229,6 +229,16 @@ def run(rep, tier, seed):
         if "key" in d.fields_by_name and msg.key != kwargs["key"]:
             rep.violation(f"C15/key:{name}", f"{name}: request carries key {msg.key}, caller gave {kwargs['key']}", replay)
         legacy = (name == "cover_command" and ver < (1, 1)) or (name == "climate_command" and ver < (1, 5) and "preset" in kwargs)
+        if name == "cover_command" and ver < (1, 1):
+            # the legacy encoding below 1.1: stop -> STOP, else fully open -> OPEN, else fully closed -> CLOSE, else no command;
+            # nothing else is written (positions in between and tilt cannot be expressed)
+            want_cmd = 2 if kwargs.get("stop") else (0 if kwargs.get("position") == 1.0 else (1 if kwargs.get("position") == 0.0 else None))
+            got_cmd = msg.legacy_command if msg.has_legacy_command else None
+            if got_cmd != want_cmd:
+                rep.violation("C15/legacy-cover", f"cover_command({ {k: v for k, v in kwargs.items() if k != 'key'} }) on API {ver}: legacy command "
+                              f"{ {None: 'none', 0: 'OPEN', 1: 'CLOSE', 2: 'STOP'}.get(got_cmd, got_cmd) } written, expected { {None: 'none', 0: 'OPEN', 1: 'CLOSE', 2: 'STOP'}[want_cmd] }", replay)
+            elif msg.has_position or msg.has_tilt or msg.stop or msg.position or msg.tilt:
+                rep.violation("C15/legacy-cover", f"cover_command({kwargs}) on API {ver}: fields of the 1.1 encoding written to a legacy device", replay)
         if not (name == "cover_command" and ver < (1, 1)):
             for p in optional_of.get(name, set()):
                 if legacy and p == "preset":
